@@ -126,10 +126,10 @@ func inDomain(c Case, m ref.Tx) string {
 	default:
 		return "unknown destination"
 	}
-	// totals must fit the library's 64-bit counters
-	lim := new(big.Int).Lsh(big.NewInt(1), 62)
-	if ref.FeeSumIn(m).Cmp(lim) > 0 || ref.FeeSumOut(m).Cmp(lim) > 0 {
-		return "totals too large"
+	// satoshi amounts are uint64: every amount is in the domain as long as neither total
+	// overflows uint64 (outputs plus change never exceeds the inputs)
+	if !ref.FeeSumIn(m).IsUint64() || !ref.FeeSumOut(m).IsUint64() {
+		return "a total overflows uint64"
 	}
 	return ""
 }
@@ -258,6 +258,19 @@ func judge(ctx *pbt.Ctx, c Case, before ref.Tx, tx *bt.Tx, opErr error, addr str
 		ctx.Label("inputs>=253")
 	}
 	ctx.Label("rel=" + c.Rel)
+	// magnitudes: the upper half of the uint64 range is where a signed 64-bit view changes sign
+	two63 := new(big.Int).Lsh(big.NewInt(1), 63)
+	if inB.Cmp(two63) >= 0 {
+		ctx.Label("inputs>=2^63")
+	}
+	if outB.Cmp(two63) >= 0 {
+		ctx.Label("outputs>=2^63")
+	}
+	if new(big.Int).Sub(inB, outB).Cmp(two63) >= 0 {
+		ctx.Label("surplus>=2^63")
+	} else if new(big.Int).Sub(inB, outB).Cmp(new(big.Int).Lsh(big.NewInt(1), 62)) >= 0 {
+		ctx.Label("surplus>=2^62")
+	}
 	hasData := false
 	for _, o := range before.Out {
 		if ref.FeeIsData(o.Script) {
@@ -491,6 +504,35 @@ func genOut(t *rapid.T, small bool) ref.Out {
 	return o
 }
 
+const maxU64 = ^uint64(0)
+
+// satAdd is a+b, saturating at 2^64-1.
+func satAdd(a, b uint64) uint64 {
+	if a > maxU64-b {
+		return maxU64
+	}
+	return a + b
+}
+
+// genHugeAmount draws an amount in the upper part of the uint64 range: around 2^62, on both
+// sides of 2^63 (where a signed 64-bit view changes sign) and just below 2^64.
+func genHugeAmount(t *rapid.T, label string) (uint64, string) {
+	k := rapid.Uint64Range(0, 1000000).Draw(t, label+"_k")
+	switch rapid.IntRange(0, 5).Draw(t, label+"_class") {
+	case 0:
+		return 1<<62 + k, "2^62+k"
+	case 1:
+		return 1<<63 - 1 - k, "2^63-1-k"
+	case 2:
+		return 1<<63 - 1, "2^63-1"
+	case 3:
+		return 1 << 63, "2^63"
+	case 4:
+		return 1<<63 + 1 + k, "2^63+1+k"
+	}
+	return maxU64 - k, "2^64-1-k"
+}
+
 func genCase(t *rapid.T) Case {
 	var c Case
 	c.Tx.Version = rapid.SampledFrom([]uint32{1, 2, 0xffffffff}).Draw(t, "version")
@@ -529,6 +571,18 @@ func genCase(t *rapid.T) Case {
 			c.Tx.Out = append(c.Tx.Out, genOut(t, false))
 		}
 		c.NOut = n
+		// one output worth an amount in the upper half of the uint64 range (the others stay
+		// small, so that the total of the outputs cannot overflow)
+		if n > 0 && rapid.IntRange(0, 19).Draw(t, "huge_out") == 13 {
+			v, class := genHugeAmount(t, "huge_out_v")
+			at := rapid.IntRange(0, n-1).Draw(t, "huge_out_at")
+			if class == "2^64-1-k" { // right below the end of the range: the other outputs carry nothing
+				for i := range c.Tx.Out {
+					c.Tx.Out[i].Sats = 0
+				}
+			}
+			c.Tx.Out[at].Sats = v
+		}
 	}
 	c.Quote = genQuote(t)
 	// input count around the point where its prefix takes three bytes (independent of the output count)
@@ -564,12 +618,19 @@ func genCase(t *rapid.T) Case {
 	if err != nil {
 		t.Fatalf("generator produced a transaction outside the domain: %v", err)
 	}
-	f := fWith.Int64()
+	f := fWith.Uint64()
 	outSum := ref.FeeSumOut(m).Uint64()
-	dust := int64(bt.DustLimit)
-	c.Rel = rapid.SampledFrom([]string{"equal", "insufficient", "fee-1", "fee", "fee+1", "fee+dust", "fee+dust+1", "fee+dust+2", "ample", "ample", "ample", "huge"}).Draw(t, "rel")
+	dust := uint64(bt.DustLimit)
+	c.Rel = rapid.SampledFrom([]string{"equal", "insufficient", "fee-1", "fee", "fee+1", "fee+dust", "fee+dust+1", "fee+dust+2", "ample", "ample", "ample", "huge", "surplus>=2^62"}).Draw(t, "rel")
 	var total uint64
 	switch c.Rel {
+	case "surplus>=2^62": // the whole upper range of the amount type, up to the last value the total can take
+		v, class := genHugeAmount(t, "surplus")
+		c.Rel = "surplus=" + class
+		if total = satAdd(satAdd(outSum, f), v); total == maxU64 {
+			c.Rel = "total=2^64-1-k"
+			total = maxU64 - rapid.Uint64Range(0, 1000000).Draw(t, "below_max")
+		}
 	case "insufficient":
 		if outSum == 0 {
 			c.Rel = "equal"
@@ -584,22 +645,22 @@ func genCase(t *rapid.T) Case {
 			c.Rel = "equal"
 			total = outSum
 		} else {
-			total = outSum + uint64(f-1)
+			total = outSum + f - 1
 		}
 	case "fee":
-		total = outSum + uint64(f)
+		total = outSum + f
 	case "fee+1":
-		total = outSum + uint64(f+1)
+		total = outSum + f + 1
 	case "fee+dust":
-		total = outSum + uint64(f+dust)
+		total = outSum + f + dust
 	case "fee+dust+1":
-		total = outSum + uint64(f+dust+1)
+		total = outSum + f + dust + 1
 	case "fee+dust+2":
-		total = outSum + uint64(f+dust+2)
+		total = outSum + f + dust + 2
 	case "ample":
-		total = outSum + uint64(f) + rapid.Uint64Range(3, 100000).Draw(t, "extra")
+		total = outSum + f + rapid.Uint64Range(3, 100000).Draw(t, "extra")
 	default:
-		total = outSum + uint64(f) + rapid.Uint64Range(100000, 2000000000000000).Draw(t, "extra")
+		total = satAdd(outSum+f, rapid.Uint64Range(100000, 2000000000000000).Draw(t, "extra"))
 	}
 	rem := total
 	for i := range c.Tx.In {
@@ -620,7 +681,7 @@ func genCase(t *rapid.T) Case {
 func enumCases(yield func(Case)) {
 	h := func(b byte) []byte { return bytes.Repeat([]byte{b}, 20) }
 	rates := []ref.FeeUnit{{Sat: 5, Bytes: 100}, {Sat: 1, Bytes: 1}, {Sat: 2, Bytes: 1}, {Sat: 5, Bytes: 1}, {Sat: 50, Bytes: 1}, {Sat: 999, Bytes: 1000}, {Sat: 1, Bytes: 1000}, {Sat: 0, Bytes: 1}, {Sat: 5000, Bytes: 3}}
-	rels := []string{"insufficient", "equal", "fee-1", "fee", "fee+1", "fee+dust", "fee+dust+1", "fee+dust+2", "ample", "huge"}
+	rels := []string{"insufficient", "equal", "fee-1", "fee", "fee+1", "fee+dust", "fee+dust+1", "fee+dust+2", "ample", "huge", "surplus=2^63-1", "surplus=2^63", "surplus=2^63+12345", "total=2^64-1"}
 	dests := []string{"address", "p2pkh", "script1", "script24", "script76", "script253", "script400", "existing0", "existingLast", "existingInvalid"}
 	for _, nout := range []int{0, 1, 2, 251, 252, 253, 254} {
 		for _, d := range dests {
@@ -687,6 +748,14 @@ func enumCases(yield func(Case)) {
 						total = out + f + dust + 2
 					case "ample":
 						total = out + f + 12345
+					case "surplus=2^63-1":
+						total = out + f + 1<<63 - 1
+					case "surplus=2^63":
+						total = out + f + 1<<63
+					case "surplus=2^63+12345":
+						total = out + f + 1<<63 + 12345
+					case "total=2^64-1":
+						total = maxU64
 					default:
 						total = out + f + 2000000000000000
 					}
@@ -703,7 +772,7 @@ func TestChange(t *testing.T) {
 		Name: "change", Quick: 300000, Thorough: 16000000,
 		Gen:   genCase,
 		Check: check,
-		EnumDesc: "one unsigned P2PKH input; output count in {0,1,2,251,252,253,254} x destination in {address, P2PKH script, scripts of 1/24/76/253/400 bytes, existing output first/last/invalid} x 9 standard rates (paired with a different data rate; every other one adds an OP_FALSE OP_RETURN output) x input total in {out-1, out, F-1, F, F+1, F+dust, F+dust+1, F+dust+2, ample, huge}, F = reference fee including the change output",
+		EnumDesc: "one unsigned P2PKH input; output count in {0,1,2,251,252,253,254} x destination in {address, P2PKH script, scripts of 1/24/76/253/400 bytes, existing output first/last/invalid} x 9 standard rates (paired with a different data rate; every other one adds an OP_FALSE OP_RETURN output) x input total in {out-1, out, F-1, F, F+1, F+dust, F+dust+1, F+dust+2, ample, huge, F+2^63-1, F+2^63, F+2^63+12345, 2^64-1}, F = reference fee including the change output",
 		Enum:     func(_ string, yield func(Case)) { enumCases(yield) },
 	})
 }
